@@ -59,48 +59,7 @@ def model_dict(model, ctx):
     return out
 
 
-def _rand_value(rng, kind):
-    x = Fraction(rng.randint(-128, 128), 64)
-    if kind in ("pos",):
-        x = abs(x) + Fraction(1, 8)
-    elif kind == "nonneg":
-        x = abs(x)
-    return x
-
-
-def pinned_queries(ctx, rng, tries):
-    """yield lists of pin equalities over all real inputs (+ consistent Weierstrass symbols)"""
-    import math
-    from . import core
-    for _ in range(tries):
-        pins = []
-        subst = []
-        for name, sym in ctx.inputs.items():
-            if z3.is_bool(sym):
-                continue
-            kind = ctx.input_kind.get(name, "real")
-            if kind.startswith("w:"):
-                continue
-            val = _rand_value(rng, kind)
-            pins.append(sym == core.term(val))
-            subst.append((sym, core.term(val)))
-        # consistent w = tan(a/2) for angles whose value is determined by the pinned inputs
-        for kind, w, arg in ctx.atom_list:
-            if kind != "w":
-                continue
-            try:
-                num = z3.simplify(z3.substitute(core.term(arg.n), *subst))
-                den = z3.simplify(z3.substitute(core.term(core._dpow(arg.e)), *subst)) if arg.e else z3.RealVal(1)
-                if z3.is_rational_value(num) and z3.is_rational_value(den) and den.numerator_as_long() != 0:
-                    a = Fraction(num.numerator_as_long(), num.denominator_as_long()) / Fraction(den.numerator_as_long(), den.denominator_as_long())
-                    t = math.tan(float(a) / 2)
-                    if math.isfinite(t) and abs(t) < 1e6:
-                        tv = Fraction(t).limit_denominator(10 ** 12)
-                        pins.append(w == core.term(tv))
-                        subst.append((w, core.term(tv)))
-            except Exception:
-                pass
-        yield pins
+from .core import pinned_queries  # noqa: E402
 
 
 # ----------------------------------------------------------------------------- symbolic worker
@@ -154,13 +113,14 @@ def _discharge(ctx, h, case, deadline, rng, out_paths, path_id, emit):
         # mutation sentinel: the claim with a 1 permille perturbed right-hand side must be refutable
         # (unless that right-hand side is identically zero)
         for (nm, k, claim, rhs_nz) in h.sentinels:
-            r, m = core.check_sat(facts + [z3.Not(claim)], min(case.timeout, 20) * 1000)
+            r = "unknown"
+            for pins in pinned_queries(ctx, rng, 3):
+                r2, m2 = core.check_sat(facts + pins + [z3.Not(claim)], 5000)
+                if r2 == "sat":
+                    r = "sat"
+                    break
             if r != "sat":
-                for pins in pinned_queries(ctx, rng, 4):
-                    r2, m2 = core.check_sat(facts + pins + [z3.Not(claim)], 5000)
-                    if r2 == "sat":
-                        r = "sat"
-                        break
+                r, m = core.check_sat(facts + [z3.Not(claim)], min(case.timeout, 20) * 1000)
             if r == "sat":
                 sent = dict(name=nm, idx=k, result="sat")
                 break
@@ -172,6 +132,7 @@ def _discharge(ctx, h, case, deadline, rng, out_paths, path_id, emit):
         if sent is None:
             sent = dict(name=None, idx=None, result="none (all candidate right-hand sides identically zero or undecided)")
     prec["sentinel"] = sent
+    refuted_names = set()
     for o in h.obls:
         facts = facts_of(o)
         rec = dict(case=case.id, path=path_id, name=o.name, idx=o.idx, kind=o.kind, info=o.info)
@@ -190,13 +151,27 @@ def _discharge(ctx, h, case, deadline, rng, out_paths, path_id, emit):
                         if r == "sat":
                             break
             else:
-                r, m = core.check_sat(facts + [z3.Not(o.claim)], case.timeout * 1000)
+                # 1) cheap refutation attempt: all inputs pinned to random rationals (a violated identity is
+                #    violated almost everywhere, and such a model is well conditioned for the float replay)
+                r, m = "unknown", None
+                for pins in pinned_queries(ctx, rng, min(2, case.pin_tries)):
+                    r2, m2 = core.check_sat(facts + pins + [z3.Not(o.claim)], 10000)
+                    if r2 == "sat":
+                        r, m = "sat", m2
+                        rec["pinned"] = True
+                        break
+                # 2) the universally quantified question (skipped when another entry of the same clause has
+                #    already been refuted on this path: the clause is violated, the remaining entries add nothing)
+                if r != "sat" and o.name in refuted_names:
+                    rec["why"] = "clause already refuted at another entry; proof attempt skipped"
+                elif r != "sat":
+                    r, m = core.check_sat(facts + [z3.Not(o.claim)], case.timeout * 1000)
+                if r == "sat":
+                    refuted_names.add(o.name)
             rec.update(status=r, t=round(time.time() - t1, 3))
-            if r in ("sat", "unknown") and case.pin_tries:
-                # pinned-input refutation: well conditioned counterexamples / decide unknowns
-                neg = [] if o.trivial is False else [z3.Not(o.claim)]
-                for pins in pinned_queries(ctx, rng, case.pin_tries):
-                    r2, m2 = core.check_sat(facts + pins + neg, 10000)
+            if r == "unknown" and case.pin_tries > 2:
+                for pins in pinned_queries(ctx, rng, case.pin_tries - 2):
+                    r2, m2 = core.check_sat(facts + pins + [z3.Not(o.claim)], 10000)
                     if r2 == "sat":
                         rec["status"] = "sat"
                         rec["pinned"] = True
